@@ -6,7 +6,7 @@ from ..terms import T, Term, pp
 LEVEL = "other"
 EXPLANATION = (
     "Decided: the premises from which coherence of len/get/iter/is_empty follows. Let n = size_for(class) (>= 1 and equal to the bytes every "
-    "in-crate ParseAt consumes on success, rule C02 decode-size) and L = data.len(). Checked on the type-checked program: len() = L / n; "
+    "in-crate ParseAt consumes on success: C02's decode-size rule, run here as part of this check) and L = data.len(). Checked on the type-checked program: len() = L / n; "
     "is_empty() = (len() == 0); get(i) returns P::parse_at(endian, class, &mut (i*n checked), data) unchanged and every earlier error exit is a "
     "guard under which that parse must fail anyway (empty data; start > L; i*n overflow); iter()/into_iter() build a ParsingIterator over the same "
     "endian/class/bytes at offset 0; ParsingIterator::next() = P::parse_at(.., &mut self.offset, self.data).ok() with no other write to offset, "
@@ -171,5 +171,15 @@ def run(ctx, rep):
     rep.require(not imm, "immutability", "no interior mutability", "-", "accessors are functions of the bytes alone", "interior mutability: %s" % imm)
     copy = any(nm(i.get("trait") or "") == "marker::Copy" and i["self_adt"] == "parse::ParsingTable" for i in F["impls"])
     rep.require(copy, "immutability", "ParsingTable: Copy", "src/parse.rs", "tables are Copy views over a shared slice", "ParsingTable is no longer Copy")
-    rep.trusted_base += ["C02 decode-size: every in-crate ParseAt consumes exactly size_for(class) >= 1 bytes on success and fails iff fewer remain",
-                        "out-of-crate ParseAt impls are out of scope"]
+    # ---- the entry decoders: an iterator / table over entries yields exactly the whole entries only if each in-crate ParseAt leaves the
+    # cursor exactly size_for(class) bytes further on success (an entry decoder that does not advance the caller's cursor makes the
+    # iterator yield one entry for ever).  That is C02's decode-size rule; it is run here as part of this property.
+    from . import c02
+    from ..runner import Report
+    sub = Report("C02")
+    c02.run(ctx, sub)
+    badsz = [v for v in sub.violations if v.rule == "decode-size"]
+    rep.require(not badsz, "entry-advance", "decode-size rule of C02", "src/parse.rs", "every in-crate ParseAt::parse_at advances the cursor by size_for(class) on success",
+                "an entry decoder does not advance the cursor by its entry size, so tables / iterators over it do not yield the whole entries in order: %s"
+                % "; ".join("%s: %s" % (v.key, v.msg[:160]) for v in badsz[:3]))
+    rep.trusted_base += ["the value part of C02 (which bytes become which field) is not needed here; out-of-crate ParseAt impls are out of scope"]
